@@ -3,6 +3,7 @@ package main
 // Evaluation of contract expressions to symbolic values in a given state.
 
 import (
+	"os"
 	"fmt"
 	"go/constant"
 	"go/token"
@@ -737,25 +738,13 @@ func (x *fnCtx) evalSpecCall(env *specEnv, e *SExpr) *Val {
 		n.bound[args[0].Op] = scalar(vt, bv)
 		body := x.evalSpecBool(&n, args[len(args)-1])
 		if strings.HasPrefix(name, "forall") {
-			pats := autoPatterns(bv, body)
-			if len(pats) == 0 && body.Kind == KQuant && body.Op == "forall" {
-				pats = autoPatterns(bv, body.Args[0])
+			// distribute over conjunctions so that each conjunct gets its own trigger
+			one := 1 << 20
+			var outs []*Term
+			for _, part := range splitGoal(body, &one) {
+				outs = append(outs, mkForallAuto(bv, args[0].Op, srt, part))
 			}
-			if len(pats) == 0 && srt == SInt {
-				// indices of the form (T + k): re-index the quantifier over j = T + k
-				if off := findOffsetIndex(bv, body); off != nil {
-					j := BVar(args[0].Op+"j", SInt)
-					body2 := Subst(body, map[*Term]*Term{bv: Sub(j, off)})
-					p2 := autoPatterns(j, body2)
-					if len(p2) == 0 && body2.Kind == KQuant && body2.Op == "forall" {
-						p2 = autoPatterns(j, body2.Args[0])
-					}
-					if len(p2) > 0 {
-						return scalar(tBool, Forall([]*Term{j}, body2, p2...))
-					}
-				}
-			}
-			return scalar(tBool, Forall([]*Term{bv}, body, pats...))
+			return scalar(tBool, And(outs...))
 		}
 		{
 			pats := autoPatterns(bv, body)
@@ -841,6 +830,25 @@ func (x *fnCtx) evalSpecCall(env *specEnv, e *SExpr) *Val {
 		l := layout(el)[0]
 		arr := Select(hget(env.heap, elemHeapName(el)+l.Suffix, ArrSort(SInt, ArrSort(SInt, l.Sort))), a.Arr())
 		return scalar(tString, SBytes(arr, a.Off(), a.Len()))
+	case "isa":
+		// isa(r, "pkg.T"): r is an allocated object of struct type T
+		a := ev(0)
+		t := x.findNamedType("*"+strings.TrimPrefix(args[1].Op, "*"), env.pkg)
+		alloc := hget(env.heap, "$alloc", ArrSort(SInt, SBool))
+		return scalar(tBool, And(Ne(a.L[0], IntLit(0)), Select(alloc, a.L[0]), Eq(Select(typeHeap, a.L[0]), IntLit(typeTag(t)))))
+	case "hastype":
+		// hastype(r, "pkg.T"): r is non-nil and denotes an object of struct type T
+		a := ev(0)
+		t := x.findNamedType("*"+strings.TrimPrefix(args[1].Op, "*"), env.pkg)
+		return scalar(tBool, And(Ne(a.L[len(a.L)-1], IntLit(0)), Eq(Select(typeHeap, a.L[len(a.L)-1]), IntLit(typeTag(t)))))
+	case "dyntype":
+		a := ev(0)
+		return scalar(tInt, Select(typeHeap, a.L[len(a.L)-1]))
+	case "ptr":
+		// ptr(r, "pkg.T"): the reference r as a *T
+		a := ev(0)
+		t := x.findNamedType("*"+strings.TrimPrefix(args[1].Op, "*"), env.pkg)
+		return &Val{T: t, L: []*Term{a.L[len(a.L)-1]}}
 	case "typeis":
 		a := ev(0)
 		t := x.findNamedType(args[1].Op, env.pkg)
@@ -924,7 +932,11 @@ func (x *fnCtx) evalSpecCall(env *specEnv, e *SExpr) *Val {
 			for i, p := range sf.Params {
 				n.bound[p] = ev(i)
 			}
-			return x.evalSpec(&n, sf.Def)
+			res := x.evalSpec(&n, sf.Def)
+			if sf.Opaque && len(res.L) == 1 && res.L[0].Sort == SBool {
+				return scalar(tBool, makeOpaque(name, res.L[0]))
+			}
+			return res
 		}
 		var leaves []*Term
 		for i := range args {
@@ -949,6 +961,35 @@ func (x *fnCtx) evalSpecCall(env *specEnv, e *SExpr) *Val {
 	}
 	x.fail("spec: unknown function %s", name)
 	return nil
+}
+
+// mkForallAuto quantifies body over bv with an automatically chosen trigger; integer
+// indices of the form (T + k) are re-indexed over j = T + k when no trigger exists otherwise.
+func mkForallAuto(bv *Term, vname string, srt Sort, body *Term) *Term {
+	if !mentions(body, bv) {
+		return body
+	}
+	pats := autoPatterns(bv, body)
+	if len(pats) == 0 && body.Kind == KQuant && body.Op == "forall" {
+		pats = autoPatterns(bv, body.Args[0])
+	}
+	if len(pats) == 0 && srt == SInt {
+		if off := findOffsetIndex(bv, body); off != nil {
+			j := BVar(vname+"j", SInt)
+			body2 := Subst(body, map[*Term]*Term{bv: Sub(j, off)})
+			p2 := autoPatterns(j, body2)
+			if len(p2) == 0 && body2.Kind == KQuant && body2.Op == "forall" {
+				p2 = autoPatterns(j, body2.Args[0])
+			}
+			// re-indexed even without a usable trigger: the form must not depend on the
+			// context (opaque definitions are matched by their skeleton)
+			return Forall([]*Term{j}, body2, p2...)
+		}
+	}
+	if len(pats) == 0 && os.Getenv("GOWP_DEBUG_PAT") != "" {
+		fmt.Fprintf(os.Stderr, "no trigger: off=%v body=%.300s\n", findOffsetIndex(bv, body), body.String())
+	}
+	return Forall([]*Term{bv}, body, pats...)
 }
 
 // patternOK: triggers may contain only uninterpreted applications, selects/stores and leaves.
@@ -990,11 +1031,11 @@ func findOffsetIndex(bv *Term, body *Term) *Term {
 		if t.Kind == KApp || (t.Kind == KBuiltin && t.Op == "select") {
 			for _, a := range t.Args {
 				if a.Kind == KBuiltin && a.Op == "+" && len(a.Args) == 2 {
-					if a.Args[1] == bv && !a.Args[0].hasBV {
+					if a.Args[1] == bv && !mentions(a.Args[0], bv) {
 						found = a.Args[0]
 						return
 					}
-					if a.Args[0] == bv && !a.Args[1].hasBV {
+					if a.Args[0] == bv && !mentions(a.Args[1], bv) {
 						found = a.Args[1]
 						return
 					}
